@@ -67,6 +67,9 @@ class Driver:
         if alg != "ClosedForm":
             self.s.max_iterations = 40
             self.s._rs.seed(seed + 13) if hasattr(self.s, "_rs") else None
+            # initialisation modes are part of the quantifier
+            modes = ["random", "svd", "closed_form"] + (["alt_min"] if alg != "AltMin" else [])
+            self.s.initialize_with = modes[seed % len(modes)]
         self.F = None          # primary inputs as the harness knows them
         self.fullF = None      # MMSE: solve() returns power-scaled precoders with LESS than full power; they are primary then
         self.WH = None
@@ -77,7 +80,11 @@ class Driver:
         s, K = self.s, self.K
         if op == "Solve":
             p = P_of(a[0], K)
-            s.solve(self.Ns) if p is None else s.solve(self.Ns, p)
+            # Ns handed over as an array that the caller changes afterwards: the solver must not be affected
+            ns_arg = np.ones(K, dtype=int) * self.Ns if self.rs.rand() < 0.5 else self.Ns
+            s.solve(ns_arg) if p is None else s.solve(ns_arg, p)
+            if isinstance(ns_arg, np.ndarray):
+                ns_arg[:] = 7
             self.pkind = a[0]
             self.F = [np.array(x) for x in s.F]
             self.WH = [np.array(x) for x in s.W_H]
@@ -91,8 +98,8 @@ class Driver:
             self.fullF = None
             return None
         if op == "SetPrecoders":
-            how, pk = a
-            F = [unit(self.rs, self.N, self.Ns) for _ in range(K)]
+            how, pk, ns = a
+            F = [unit(self.rs, self.N, ns) for _ in range(K)]
             newp = self.pkind if pk == "keep" else pk
             kw = {}
             if pk != "keep":
@@ -100,7 +107,8 @@ class Driver:
             Fa = np.empty(K, dtype=object)
             for k in range(K):
                 Fa[k] = F[k]
-            arg = list(F) if self.rs.rand() < 0.5 else Fa
+            form = self.rs.randint(0, 3)
+            arg = list(F) if form == 0 else (Fa if form == 1 else np.array(F))      # list / object array / stacked 3-D array
             if how == "F":
                 s.set_precoders(F=arg, **kw)
             else:
@@ -112,7 +120,7 @@ class Driver:
             self.fullF = None
             return None
         if op == "SetFilters":
-            WH = [self.rs.randn(self.Ns, self.N) + 1j * self.rs.randn(self.Ns, self.N) for _ in range(K)]
+            WH = [self.rs.randn(a[1], self.N) + 1j * self.rs.randn(a[1], self.N) for _ in range(K)]
             if a[0] == "W_H":
                 s.set_receive_filters(W_H=list(WH))
             else:
@@ -157,7 +165,7 @@ class Driver:
         if self.WH is not None:
             ev["W_H"] = self.WH
             ev["W"] = [w.conj().T for w in self.WH]
-        if self.F is not None and self.WH is not None:
+        if self.F is not None and self.WH is not None and self.F[0].shape[1] == self.WH[0].shape[0]:
             fw = []
             for k in range(K):
                 Hkk = self.ch.get_Hkl(k, k)
@@ -216,6 +224,8 @@ def check_state(drv, e, probe):
             ns = np.asarray(s.Ns)
             if ns is None or list(ns) != [np.asarray(s.F[k]).shape[1] for k in range(K)]:
                 bad.append(f"Ns {s.Ns} does not match the precoder shapes")
+    if "NsMatchesShapes" in req and F is not None and list(np.asarray(s.Ns)) != [f.shape[1] for f in F]:
+        bad.append(f"Ns {s.Ns} does not follow the installed precoders (streams {[f.shape[1] for f in F]})")
     if F is not None and drv.WH is not None and "OwnChannelIdentity" in req:
         try:
             c = copy.deepcopy(drv.s)
@@ -234,6 +244,8 @@ def check_state(drv, e, probe):
                     if leak > 1e-7:
                         bad.append(f"closed-form solution leaks {leak:.2e} from user {l} into user {k}")
     if "SolvedShapes" in req:
+        if list(np.asarray(s.Ns)) != [drv.Ns] * K:
+            bad.append(f"Ns after solve({drv.Ns}) is {s.Ns}")
         for k in range(K):
             if np.asarray(s.W_H[k]).shape != (np.asarray(s.Ns)[k], drv.N) or np.asarray(s.F[k]).shape != (drv.N, np.asarray(s.Ns)[k]):
                 bad.append(f"filter shapes of user {k} do not match Ns")
@@ -333,7 +345,7 @@ def explore(ctx, alg, r, mode):
     g = graph.Graph(edges, label=lambda e: graph.key(e["ret"]))
     root = g.roots()[0]
     rng = random.Random(ctx.seed + ALGS.index(alg))
-    paths = g.transition_cover(root, max_len=9, rng=rng)
+    paths = g.transition_cover(root, max_len=9, rng=rng) if mode.get("cover", True) else []
     if mode.get("walks"):
         paths += g.random_walks(root, mode["walks"], mode.get("walk_len", 10), rng)
     jobs = [(alg, g.path_edges(p), ctx.seed * 7919 + i) for i, p in enumerate(paths)]
@@ -372,7 +384,12 @@ def run(ctx):
         runs = [f.result() for f in futs]
         devf.result()
     for alg, r in zip(ALGS, runs):
-        explore(ctx, alg, r, mode)
+        # quick: every transition for the closed-form and the MMSE solver (their solve() differs most: no iteration /
+        # power-scaled precoders are primary), seeded walks over the same graph for the other three
+        m = dict(mode)
+        if not thorough and alg in ("AltMin", "MinLeakage", "MaxSINR"):
+            m.update(cover=False, walks=220, walk_len=10)
+        explore(ctx, alg, r, m)
     ctx.require_actions(["Solve", "RandomizeF", "SetPrecoders", "SetFilters", "SetP", "SetPInvalid", "NewChannel",
                          "ReadFullF", "ReadWconv", "ReadFullWH", "ReadFullW"])
     ctx.exhaustive = True
